@@ -119,3 +119,21 @@ Theorem C14_sticky_backend_order_independent : forall bks bks' h,
   sticky_pick bks h = sticky_pick bks' h /\ bk_inventory bks = bk_inventory bks'.
 Proof. exact sticky_pick_perm. Qed.
 Print Assumptions C14_sticky_backend_order_independent.
+
+(* Any load history: Init(a) followed by any number of successful Reloads and finally Reload(b) ends in the state of a
+   fresh Init(b). *)
+Theorem C14_gslb_history_independent : forall hist b,
+  hist <> [] -> Forall loadable hist -> loadable b -> gslb_after_history hist b = gslb_fresh b.
+Proof. exact gslb_history_independent. Qed.
+Print Assumptions C14_gslb_history_independent.
+
+(* Central theorem: on every well-formed input outside the finding classes the model output satisfies prop_C14; for
+   the reload operation this says the model's (history; reload B) half equals its fresh-load-of-B half. *)
+Theorem C14_central : forall i, wf_C14 i = true -> kf_C14 i = 0 -> prop_C14 i (run_C14 i) = true.
+Proof. exact c14_central. Qed.
+Print Assumptions C14_central.
+(* generated cases (classes reload-replace-same-count-sticky-uri and sdc) are well-formed *)
+Example C14_wf_generated_reload : wf_C14 (VL [(VZ 3); (VZ 8); (VL [(VZ 1); (VZ 3)]); (VL [(VL [(VL [(VB [120]); (VZ 9); (VL [(VL [(VB [97;112;112]); (VB [49;48;46;48;46;48;46;50]); (VZ 8081); (VZ 4)]); (VL [(VB [119;101;98;45;48;49]); (VB [49;48;46;48;46;48;46;49;48]); (VZ 8080); (VZ 2)])])]); (VL [(VB [97;97]); (VZ 7); (VL [(VL [(VB [119;101;98]); (VB [49;48;46;48;46;48;46;50]); (VZ 9); (VZ 1)]); (VL [(VB [119;101;98]); (VB [49;57;50;46;49;54;56;46;49;46;49]); (VZ 9); (VZ 1)]); (VL [(VB [119;101;98;45;48;49]); (VB [49;57;50;46;49;54;56;46;49;46;49]); (VZ 8081); (VZ 5)]); (VL [(VB [97;112;112]); (VB [49;57;50;46;49;54;56;46;49;46;49]); (VZ 8080); (VZ 3)]); (VL [(VB [97;112;112]); (VB [49;57;50;46;49;54;56;46;49;46;49]); (VZ 80); (VZ 4)])])]); (VL [(VB [115;117;98;95;97]); (VZ (-1)); (VL [(VL [(VB [119;101;98]); (VB [49;48;46;48;46;48;46;49]); (VZ 8080); (VZ 2)]); (VL [(VB [119;101;98]); (VB [49;48;46;48;46;48;46;49]); (VZ 9); (VZ 5)]); (VL [(VB [97;112;112]); (VB [49;57;50;46;49;54;56;46;49;46;49]); (VZ 8080); (VZ 3)]); (VL [(VB [119;101;98;45;48;49]); (VB [49;48;46;48;46;48;46;49;48]); (VZ 8080); (VZ 5)]); (VL [(VB [65;112;112]); (VB [49;48;46;48;46;48;46;49;48]); (VZ 8081); (VZ 1)])])])])]); (VL [(VL [(VB [109;49]); (VZ 0); (VL [(VL [(VB [97;112;112]); (VB [49;57;50;46;49;54;56;46;49;46;49]); (VZ 80); (VZ 5)]); (VL [(VB [119;101;98;45;48;49]); (VB [49;57;50;46;49;54;56;46;49;46;49]); (VZ 8081); (VZ 3)])])]); (VL [(VB [97;97]); (VZ 3); (VL [(VL [(VB [119;101;98]); (VB [49;57;50;46;49;54;56;46;49;46;49]); (VZ 9); (VZ 1)]); (VL [(VB [119;101;98;45;48;49]); (VB [49;57;50;46;49;54;56;46;49;46;49]); (VZ 8081); (VZ 5)]); (VL [(VB [97;112;112]); (VB [49;57;50;46;49;54;56;46;49;46;49]); (VZ 8080); (VZ 3)]); (VL [(VB [119;101;98]); (VB [49;48;46;48;46;48;46;50]); (VZ 9); (VZ 1)]); (VL [(VB [97;112;112]); (VB [49;57;50;46;49;54;56;46;49;46;49]); (VZ 80); (VZ 3)])])]); (VL [(VB [120]); (VZ 9); (VL [(VL [(VB [119;101;98;45;48;49]); (VB [49;48;46;48;46;48;46;49;48]); (VZ 8080); (VZ 2)]); (VL [(VB [97;112;112]); (VB [49;48;46;48;46;48;46;50]); (VZ 8081); (VZ 4)])])])]); (VL [(VL [(VB [10;42;188;245]); (VZ 14588092104202114209)]); (VL [(VB [10;163;157;247]); (VZ 4974517120947402620)]); (VL [(VB [10;69;6;219]); (VZ 1365090852536822037)]); (VL [(VB [10;66;76;56]); (VZ 140383274277299126)]); (VL [(VB [10;94;107;42]); (VZ 13075165901497504742)]); (VL [(VB [10;230;247;36]); (VZ 9054705765500881717)]); (VL [(VB [10;200;46;108]); (VZ 3231407368616127475)]); (VL [(VB [10;18;254;110]); (VZ 4634813991291526985)]); (VL [(VB [10;23;220;7]); (VZ 8118748324498792501)]); (VL [(VB [10;109;255;180]); (VZ 4181828536429377916)]); (VL [(VB [10;191;73;184]); (VZ 3853135134473820385)]); (VL [(VB [10;226;97;61]); (VZ 1866420667749950602)])])]) = true.
+Proof. vm_compute. reflexivity. Qed.
+Example C14_wf_generated_sdc : let i := (VL [(VZ 1); (VZ 1031358646); (VZ 20); (VL [(VL [(VB [118;49])]); (VL []); (VL [(VL [(VL [(VB [116;49]); (VL [(VL [(VB [97;112;105;46;101;46;100;101;118;46])])])]); (VL [(VB [116;50]); (VL [(VL [(VB [100;46;105;111])])])])])]); (VL [(VL [(VL [(VB [112;49]); (VL [(VL [(VB [116;49]); (VB [116;50])])])])])])]); (VL [(VB [118;49]); (VL [])]); (VL [(VL [(VB [118;49])]); (VL [(VL [(VL [(VB [112;49]); (VL [(VL [(VL [(VB [42])]); (VL [(VB [47;97])]); (VL [(VB [65;68;86;65;78;67;69;68;95;77;79;68;69])])])])])])]); (VL [(VL [(VL [(VB [112;49]); (VL [(VL [(VL [(VZ 1)]); (VL [(VB [99;108;117;115;116;101;114;95;98])])]); (VL [(VL [(VZ 1)]); (VL [(VB [99;49])])]); (VL [(VL [(VZ 0)]); (VL [(VB [99;108;117;115;116;101;114;95;98])])])])])])])]); (VL [(VL [(VB [118;49])]); (VL [(VL [(VL [(VB [99;49]); (VL [(VL [(VB [119;115])]); (VL []); (VL []); (VL [(VZ 2)]); (VL []); (VL [(VZ 2)]); (VL [(VB [67;111;111;107;105;101;58;85;73;68])]); (VL [])])]); (VL [(VB [99;108;117;115;116;101;114;95;98]); (VL [(VL []); (VL []); (VL [(VB [47;115;63;120;61;49])]); (VL [(VZ 2)]); (VL []); (VL []); (VL []); (VL [])])])])])]); (VL [(VL [(VB [97;112;105;46;101;46;100;101;118;58;56;48;56;48]); (VL []); (VB [47;97;98])]); (VL [(VB [117;110;107;110;111;119;110;46;101;120;97;109;112;108;101]); (VL []); (VB [47;97;47])]); (VL [(VB [115;117;98;46;97;112;105;46;101;46;100;101;118]); (VL [(VB [50;48;51;46;48;46;49;49;51;46;55])]); (VB [47;98;47;120])]); (VL [(VB [100;46;105;111;58;56;48;56;48]); (VL []); (VB [47;98])]); (VL [(VB [115;117;98;46;97;112;105;46;101;46;100;101;118]); (VL [(VB [50;48;51;46;48;46;49;49;51;46;55])]); (VB [47;99;47;100;47;101])])])]) in wf_C14 i = true /\ kf_C14 i = 0.
+Proof. vm_compute. split; reflexivity. Qed.
